@@ -747,3 +747,31 @@ def rule_reply_budget(ctx, R):
                 R.finding(fn, "conversion-loop:no-element-budget",
                           "%s converts a script value in a loop (line %d) that reads the Lua state and has no exit decided by a budget shared by the whole conversion: a table whose __index never yields nil, or a small table that references one child many times (2^64 nodes at 64 levels), keeps the command thread converting for ever after the script has finished -- no client is served and memory grows without bound" % (fn.split("::")[-1], b.bb_line(h)), b.loc(h))
     R.floor("lua_to_resp_conversion_loops", n)
+
+
+# ---- R-LUA-CACHE-KEEP -----------------------------------------------------------------------------
+def rule_cache_keep(ctx, R):
+    """a loaded script stays loaded until SCRIPT FLUSH: in the script cache, entries leave the
+    source map (`remove`, `retain`, `drain`, `clear`, `pop*`) only in functions that do not also
+    store a script -- i.e. the flush path.  Eviction on the load path makes EVALSHA of a loaded,
+    never-flushed script answer NOSCRIPT."""
+    n = 0; stores = 0
+    MAP = r"HashMap::<std::string::String, std::string::String>::"
+    for fn, b in sorted(ctx.prog.bodies.items()):
+        if not fn.startswith("storage::lua_cache::") or "::tests::" in fn or b.kind == "Closure":
+            continue
+        calls = list(shared.deep_calls(ctx, b))
+        ins = [(body, i) for body, i, t in calls if re.search(MAP + r"(insert|entry)(::<.*>)?$", t["f"] or "")]
+        rem = [(body, i) for body, i, t in calls if re.search(MAP + r"(remove|remove_entry|retain|drain|clear|extract_if)(::<.*>)?$", t["f"] or "")]
+        stores += len(ins)
+        if not rem:
+            continue
+        n += 1
+        bad = bool(ins)
+        R.inst(fn, "cache-removal", {"function": fn, "removals": len(rem), "also_stores_a_script": bad})
+        if bad:
+            body, i = rem[0]
+            R.finding(fn, "cache-removal:on-the-load-path",
+                      "%s takes entries out of the script cache (line %d) in the same function that stores a script: a loaded script can be evicted without SCRIPT FLUSH, and EVALSHA of it then answers NOSCRIPT while EVAL of its source works" % (fn.split("::")[-1], body.bb_line(i)), body.loc(i))
+    R.inst("-", "script-cache", {"storing_calls": stores, "functions_that_remove": n})
+    R.floor("script_cache_stores", stores)
